@@ -33,7 +33,7 @@ RULE = ('family = one store (new / from_dict / from_list with immutable_warranty
 PROBES = ['iterator_kept_open', 'slice_dataset_kept', 'two_client_threads', 'mutated_then_reread_same_path', 'mutated_then_reread_other_path',
           'original_container_mutated', 'read_by_prefetch_worker',
           'first_access_object_mutated', 'cached_access_object_mutated',
-          'constructed_through_another_entry_point', 'original_container_grew_or_shrank', 'empty_container_refused', 'dataset_from_json_file']
+          'endless_repetition_second_round', 'constructed_through_another_entry_point', 'original_container_grew_or_shrank', 'empty_container_refused', 'dataset_from_json_file']
 BUDGET = {
     'quick': {'families': 7000, 'wall_cap': 420, 'shrink_s': 12},
     'thorough': {'families': 70000, 'wall_cap': 5400, 'shrink_s': 30},
@@ -105,8 +105,9 @@ def gen(rng, tier, index):
             r = rng.random()
             if r < 0.12:
                 # an iterator kept open and advanced between other operations
-                ops.append(rng.choice([['it_open', rng.choice(['iter', 'items']) if kind == 'dict'
-                                        else 'iter'], ['it_next'], ['it_next']]))
+                ops.append(rng.choice([['it_open', rng.choice(['iter', 'items', 'cycle']) if kind == 'dict'
+                                        else rng.choice(['iter', 'cycle'])],
+                                       ['it_next'], ['it_next'], ['it_next']]))
             elif r < 0.2:
                 # a slice dataset that is kept and read repeatedly
                 ops.append(rng.choice([['ks_open', rng.randrange(n)], ['ks_read', rng.randrange(n)],
@@ -287,8 +288,29 @@ def run(case):
                 if violations:
                     break
                 if op[0] == 'it_open':
-                    held_it = [iter(ds.items() if op[1] == 'items' else ds), 0, op[1]]
+                    if op[1] == 'cycle':
+                        # an endless repetition: later rounds meet examples that
+                        # were handed out (and mutated) in earlier rounds
+                        held_it = [iter(ds.cycle()), 0, 'cycle']
+                    else:
+                        held_it = [iter(ds.items() if op[1] == 'items' else ds), 0, op[1]]
                     probes['iterator_kept_open'] = 1
+                    continue
+                if op[0] == 'it_next' and held_it is not None and held_it[2] == 'cycle':
+                    for _rep in range(max(1, n - 1)):
+                        if held_it[1] >= 3 * n or violations:
+                            break
+                        try:
+                            v = next(held_it[0])
+                        except Exception:
+                            if case['store'] == 'diskcache':
+                                held_it = None
+                                break
+                            raise
+                        check(held_it[1] % n, v, 'cycle')
+                        held_it[1] += 1
+                        if held_it[1] > n:
+                            probes['endless_repetition_second_round'] = 1
                     continue
                 if op[0] == 'it_next':
                     if held_it is not None and held_it[1] < n:
